@@ -243,6 +243,13 @@ def directed_cases(tier):
                 steps += [{"s": "open", "dir": d, "start": st0, "salt": 2000 + j, "uuid": "sess%d" % (j + 1), "mode": "later" if j != 1 else "earlier"},
                           {"s": "write", "op": {"op": "w", "idx": 0, "len": ln, "cid": j}, "expect": "ok"}, {"s": "close"}, {"s": "read"}]
             out.append({"cfg": cfg, "ndirs": 2, "steps": steps})
+        # one reader stays open while later sessions create the NEXT subdirectory (which the reader has already looked for,
+        # in vain, when it read ahead) and an EARLIER one
+        steps = []
+        for j, (st0, ln, mode) in enumerate(((b + 700, 250, "first"), (b + 1000, 300, "later"), (b - 2000, 150, "earlier"), (b + 2500, 40, "later"))):
+            steps += [{"s": "open", "dir": 0, "start": st0, "salt": 3000 + j, "uuid": "keep%d" % (j + 1), "mode": mode},
+                      {"s": "write", "op": {"op": "w", "idx": 0, "len": ln, "cid": j}, "expect": "ok"}, {"s": "read"}, {"s": "close"}, {"s": "read"}]
+        out.append({"cfg": cfg, "ndirs": 1, "steps": steps, "env": {"pad": 0, "cwd": None, "keep_reader": True, "repeat": 1}})
     return out
 
 
@@ -583,6 +590,18 @@ def _read_check(cfg, tops, definite, maybe, windows, fail, si, open_win=None, va
         # read in pieces so that one pathological span cannot exhaust memory
         a = max(0, lo - spf - 2)
         end = hi + spf + 2
+        # look ahead into the following subdirectory period (which may not exist yet - a later session may create it)
+        ahead = (cfg["S"] * 1000 // cfg["F"]) * spf
+        if ahead <= 256 * spf:
+            end += ahead
+        tail = None
+        if kept is not None:
+            # a reader that polls: its first query of this pass is for the newest stretch alone ...
+            t0 = max(lo, rfmodel.first_sample(cfg, rfmodel.subdir_s(cfg, hi) * 1000))  # ... starting in the newest subdirectory
+            if hi - t0 > 4 * spf:
+                t0 = hi - 2 * spf
+            with rfharness.quiet_fds():
+                tail = (t0, rd.read(t0, hi + 1, "ch0"))
         with rfharness.quiet_fds():
             blocks = rd.get_continuous_blocks(a, end, "ch0")
         # the union reads back as ONE channel: blocks in index order, disjoint and maximal whichever directory holds them
@@ -618,6 +637,20 @@ def _read_check(cfg, tops, definite, maybe, windows, fail, si, open_win=None, va
                     raw = np.ascontiguousarray(arr).astype(sd, copy=False).tobytes()
                     for i in range(arr.shape[0]):
                         got[int(kk) + i] = raw[i * nb:(i + 1) * nb]
+        if tail is not None:
+            tgot = set()
+            for kk, arr in tail[1].items():
+                tgot.update(range(int(kk), int(kk) + arr.shape[0]))
+            tmiss = [k for k in got if tail[0] <= k <= hi + 1 and k not in tgot]
+            if tmiss:
+                fail("union-reads-disagree", "step %d: read(%d,%d) of a kept reader misses %d samples that its later whole-span read returns, first %d" % (
+                    si, tail[0], hi + 1, len(tmiss), min(tmiss)))
+            # ... and its last one looks ahead of the data
+            nxt_sub = rfmodel.first_sample(cfg, (rfmodel.subdir_s(cfg, hi) + cfg["S"]) * 1000)
+            with rfharness.quiet_fds():
+                rd.read(hi + 1, end, "ch0")
+                if nxt_sub + spf - 1 - hi <= 256 * spf:
+                    rd.read(hi + 1, nxt_sub + spf - 1, "ch0")  # ends just inside the next subdirectory period
         missing = [k for k in definite if k not in got and not (open_win and open_win[0] <= k < open_win[1])]
         if missing:
             fail("union-read-missing-sample", "step %d: %d written samples not returned, first %d" % (si, len(missing), min(missing)))
